@@ -7,8 +7,10 @@
 // pipeline ref.Pipe and compared after EVERY operation.
 //
 // Exact barriers, no sleeps:
-//   - harn.AggRest semantics per aggregator (inbox observed empty, then a
-//     synchronous Snapshot round-trip served by the single-threaded run loop);
+//   - per aggregator: inbox observed empty, then a synchronous round-trip
+//     through the single-threaded run loop, which it serves only between two
+//     messages: a tick that closes nothing after every operation (see rest),
+//     harn.AggRest (Snapshot) at the end of every history;
 //   - two sentinel lines through table.GetIn(): the channel is unbuffered and
 //     has one reader, so the second is accepted only after the first has been
 //     dispatched completely, i.e. after every aggregate line sent before it.
@@ -371,6 +373,7 @@ type worker struct {
 	cBlack   ctr
 	cUnr     ctr
 	cTooOld  ctr
+	deadline time.Time
 	progress int64 // bumped at every barrier round; watched by the watchdog
 	where    atomic.Value
 	sentSent int
@@ -855,6 +858,12 @@ func (w *worker) runTable(ti int, spec tspec, sts [][]byte, points int, upto int
 		}
 		if si&15 == 0 {
 			w.where.Store(tbl + " / history " + strconv.Itoa(si) + "..")
+			if !w.deadline.IsZero() && ok && time.Now().After(w.deadline) {
+				// out of time in the middle of a table: the table does not count as covered
+				w.res.Cut = "internal deadline"
+				ok = false
+				break
+			}
 		}
 		state := pipe.NewState()
 		startClock = atomic.LoadInt64(&w.clock)
@@ -1030,8 +1039,6 @@ func memberNames(spec tspec, members []int) string {
 // ---------------------------------------------------------------------------
 // worker process
 
-var ballast []byte
-
 const stuckAfter = 20 // seconds without a completed barrier round
 
 func quietStdout() *os.File {
@@ -1040,6 +1047,26 @@ func quietStdout() *os.File {
 		os.Stdout = dn // Table.DelAggregator prints
 	}
 	return orig
+}
+
+// watchdog calls stuck (which must not return) when no barrier round has
+// completed for stuckAfter seconds.
+func (w *worker) watchdog(stuck func(at string)) {
+	go func() {
+		last, same := int64(-1), 0
+		for {
+			time.Sleep(time.Second)
+			p := atomic.LoadInt64(&w.progress)
+			if p != last {
+				last, same = p, 0
+				continue
+			}
+			same++
+			if same >= stuckAfter {
+				stuck(w.where.Load().(string))
+			}
+		}
+	}()
 }
 
 func workerMain(spec string) {
@@ -1058,11 +1085,9 @@ func workerMain(spec string) {
 	if v, err := strconv.Atoi(os.Getenv("C11_GOGC")); err == nil {
 		debug.SetGCPercent(v)
 	}
-	if v, err := strconv.Atoi(os.Getenv("C11_BALLAST")); err == nil {
-		ballast = make([]byte, v<<20)
-	}
 	w := newWorker()
 	w.res.Worker = wi
+	w.deadline = deadline
 	if pf := os.Getenv("C11_CPUPROFILE"); pf != "" {
 		f, _ := os.Create(pf)
 		pprof.StartCPUProfile(f)
@@ -1080,27 +1105,14 @@ func workerMain(spec string) {
 		bw.Flush()
 	}
 	// watchdog: a hard deadlock of table <-> aggregator is a violation, not a hang
-	go func() {
-		last, same := int64(-1), 0
-		for {
-			time.Sleep(time.Second)
-			p := atomic.LoadInt64(&w.progress)
-			if p != last {
-				last, same = p, 0
-				continue
-			}
-			same++
-			if same >= stuckAfter {
-				at := w.where.Load().(string)
-				w.resMu.Lock()
-				w.res.Violations = append(w.res.Violations, violation{Table: -1, Stream: -1, Sig: "stuck " + at, What: fmt.Sprintf("ROUTING LOOP / DEADLOCK: no barrier completed for %d s at %s: the composition table -> aggregator -> table does not come to rest", stuckAfter, at), Replay: map[string]interface{}{"at": at}, Labels: []string{"stuck"}})
-				w.res.Cut = "stuck"
-				w.resMu.Unlock()
-				emit()
-				os.Exit(0)
-			}
-		}
-	}()
+	w.watchdog(func(at string) {
+		w.resMu.Lock()
+		w.res.Violations = append(w.res.Violations, violation{Table: -1, Stream: -1, Sig: "stuck " + at, What: fmt.Sprintf("ROUTING LOOP / DEADLOCK: no barrier completed for %d s at %s: the composition table -> aggregator -> table does not come to rest", stuckAfter, at), Replay: map[string]interface{}{"at": at}, Labels: []string{"stuck"}})
+		w.res.Cut = "stuck"
+		w.resMu.Unlock()
+		emit()
+		os.Exit(0)
+	})
 
 	badTables := 0
 	gi := 0
@@ -1162,6 +1174,10 @@ func replay(rep *kit.Reporter) {
 	}
 	// the earlier histories run silently, the recorded one is printed (same objects, same clock as in the run)
 	fmt.Fprintf(rep.Out, "replay: table %s, histories 0..%d of %d (<= %d points, <= 2 ticks)\n", r.Table, r.Index, len(sts), r.Points)
+	w.watchdog(func(at string) {
+		fmt.Fprintf(rep.Out, "VIOLATION property=C11 replay=%s\n  ROUTING LOOP / DEADLOCK: no barrier completed for %d s at %s\n", rep.ReplayOnly, stuckAfter, at)
+		os.Exit(1)
+	})
 	okAll := w.runTableVerboseLast(r.Table, sts, r.Points, r.Index+1, rep.Out)
 	for _, v := range w.res.Violations {
 		fmt.Fprintf(rep.Out, "VIOLATION property=C11 replay=%s\n  %s\n", rep.ReplayOnly, v.What)
@@ -1338,7 +1354,7 @@ func main() {
 		"plans: " + strings.Join(planDesc, "; "),
 		"fixed capture routes " + routesString() + " on one real table.Table per worker process; aggregators are real, built by aggregator.NewMocked with out = table.GetIn() (the relay's wiring), inbox 2000, an injected clock, one tick channel each",
 		fmt.Sprintf("time: the i-th point of a history has value 2^i and the current clock as timestamp; every tick advances the clock by %d s (>= interval + wait) and therefore closes every open bucket; the clock only moves forward, also from history to history; the aggregators and their match caches live for all histories of one table (a closing tick empties them between histories), fresh ones per table", tickStep),
-		"barrier after every operation: all aggregators at rest (inbox empty + Snapshot round-trip), two sentinel lines through the unbuffered Table.In, all aggregators at rest again; repeated (cap " + strconv.Itoa(maxRounds) + " rounds) while an aggregator's in-counter moved during the round; more than 4x the reference's lines + 52 at the catch-all route, the round cap, or " + strconv.Itoa(stuckAfter) + " s without a completed barrier are reported as a routing loop",
+		"barrier after every operation: all aggregators at rest (inbox empty + a synchronous round-trip through the single-threaded run loop: a tick carrying the unchanged clock, which closes nothing; harn.AggRest with its Snapshot round-trip at the end of every history, after which nothing may have moved), two sentinel lines through the unbuffered Table.In, and, if any aggregator emitted anything in the operation, all aggregators at rest again; repeated (cap " + strconv.Itoa(maxRounds) + " rounds) while an aggregator's in-counter moved during the round; more than 4x the reference's lines + 52 at the catch-all route, the round cap, or " + strconv.Itoa(stuckAfter) + " s without a completed barrier are reported as a routing loop",
 		"order of the aggregate lines of one tick is left free (map iteration, concurrent aggregators): per operation and route the captured lines are compared as a multiset",
 		"only sum and count over small integer values are used, so expected values are exact integers printed with six decimals; the format templates end in $N (digits-only reading of the template)",
 	}
